@@ -692,6 +692,99 @@ func (g *gen) listenerSeed() []Event {
 	return out
 }
 
+// episode is a short scripted run of consecutive events on the live state, of the kind that only matters when
+// nothing else happens in between: a resource that loses a contest is deleted and created again at once (state
+// cached per key must not survive the object); three minions contend for one path with key order different
+// from age order; an orphan route or minion is deleted and re-created.
+func (g *gen) episode() []Event {
+	r := g.r
+	var out []Event
+	nginx := sp("nginx")
+	up := func(s Spec, note string) Spec {
+		g.live[s.Kind+"|"+s.NS+"/"+s.Name] = s
+		out = append(out, Event{Op: "upsert", Spec: s, Note: note})
+		return s
+	}
+	del := func(s Spec) {
+		delete(g.live, s.Kind+"|"+s.NS+"/"+s.Name)
+		out = append(out, Event{Op: "delete", Spec: Spec{Kind: s.Kind, NS: s.NS, Name: s.Name}, Note: "delete"})
+	}
+	mk := func(kind, ns, name string, ts int64) Spec {
+		s := Spec{Kind: kind, NS: ns, Name: name, UID: g.newUID(), TS: ts, Gen: 1}
+		if kind == "ing" {
+			s.ClassAnn = nginx
+		} else {
+			s.ClassField = nginx
+		}
+		return s
+	}
+	switch r.Intn(4) {
+	case 0, 1:
+		// winner and loser of one host; the loser goes away and comes back
+		h := vh.Pick(r, hosts)
+		kinds := []string{"vs", "ing", "ts"}
+		wk, lk := vh.Pick(r, kinds), vh.Pick(r, kinds)
+		fillHost := func(s *Spec) {
+			switch s.Kind {
+			case "vs":
+				s.Host = h
+			case "ing":
+				s.IngKind, s.Hosts = "regular", []string{h}
+			case "ts":
+				s.Host, s.LName, s.Proto = h, "tls-passthrough", "TLS_PASSTHROUGH"
+			}
+		}
+		w := mk(wk, "ns1", "a", stamps[0])
+		fillHost(&w)
+		up(w, "episode-winner")
+		l := mk(lk, "a-b", "b", stamps[len(stamps)-1])
+		fillHost(&l)
+		up(l, "episode-loser")
+		del(l)
+		l2 := mk(lk, "a-b", "b", stamps[len(stamps)-1])
+		fillHost(&l2)
+		up(l2, "episode-loser-again")
+		if r.Bool() {
+			del(w) // and the loser finally wins
+		}
+	case 2:
+		// three minions on one path; the first in key order is the youngest
+		h := vh.Pick(r, hosts[:3])
+		m := mk("ing", "ns1", "a", stamps[1])
+		m.IngKind, m.Hosts = "master", []string{h}
+		up(m, "episode-master")
+		ages := []int64{stamps[len(stamps)-1], stamps[0], stamps[1]}
+		if r.Bool() {
+			ages = []int64{stamps[1], stamps[len(stamps)-1], stamps[0]}
+		}
+		for i, nn := range [][2]string{{"a-b", "a"}, {"a-b", "b"}, {"ns1", "b"}} {
+			mi := mk("ing", nn[0], nn[1], ages[i])
+			mi.IngKind, mi.Hosts, mi.Paths = "minion", []string{h}, []string{"/a"}
+			up(mi, "episode-minion")
+		}
+	default:
+		// an orphan route / minion is told why, goes away and comes back
+		if r.Bool() {
+			o := mk("vsr", "a-b", "a", stamps[1])
+			o.Host, o.Subpaths = "orphan.example.com", []string{"/x"}
+			up(o, "episode-orphan")
+			del(o)
+			o2 := mk("vsr", "a-b", "a", stamps[1])
+			o2.Host, o2.Subpaths = "orphan.example.com", []string{"/x"}
+			up(o2, "episode-orphan-again")
+		} else {
+			o := mk("ing", "a-b", "a", stamps[1])
+			o.IngKind, o.Hosts, o.Paths = "minion", []string{"orphan.example.com"}, []string{"/x"}
+			up(o, "episode-orphan")
+			del(o)
+			o2 := mk("ing", "a-b", "a", stamps[1])
+			o2.IngKind, o2.Hosts, o2.Paths = "minion", []string{"orphan.example.com"}, []string{"/x"}
+			up(o2, "episode-orphan-again")
+		}
+	}
+	return out
+}
+
 func keyOf(e Event) string {
 	if e.Spec.Kind == "gc" {
 		return "gc"
@@ -770,7 +863,14 @@ func genCase(r *vh.Rng, id int, tier string) Case {
 	if r.Chance(2, 5) {
 		evs = append(evs, g.listenerSeed()...)
 	}
+	at := -1
+	if r.Chance(1, 3) {
+		at = r.Intn(n)
+	}
 	for i := 0; i < n; i++ {
+		if i == at {
+			evs = append(evs, g.episode()...)
+		}
 		evs = append(evs, g.next())
 	}
 	c.Histories = []History{{Label: "main", Events: evs}}
